@@ -332,7 +332,7 @@ fn main() {
                     progress(ci, ii, "glr");
                     let (d, r, gi) = (*d, *r, *gi);
                     let (lm, go, skip_ws) = (c.lm, c.go, c.skip_ws);
-                    let gpartial = if glr_primary { partial_in } else { c.partial };
+                    let gpartial = partial_in;
                     let anylex = inp.get("lexer").and_then(|x| x.as_str()) == Some("any");
                     let rr = timed(timeout_ms, move || {
                         d.install(lm, go);
